@@ -456,6 +456,11 @@ def run(ctx):
     # internal forces of a beam (N, M, T results) are read in the axes of the member: the operators they are computed with carry the frame block
     ctx.attempt(_beamops.operator_frame_rule, ctx, _ElemLib(ctx.repo), "R16.18")
     ctx.attempt(hooke_rule, ctx)
+    from . import c20 as _c20
+
+    # 'the reported deformation energy equals one half of u'Ku, and reactions ... balance the applied loads': the two reductions,
+    # also for a structure with Lagrange (connection) conditions, whose assembled operators carry the multiplier block
+    ctx.attempt(_c20.owned_rows_rule, ctx, "R16.20")
     from ..shared import group_loop_rule as _group_loop_rule
     from . import c14 as _c14
 
